@@ -72,6 +72,16 @@ def build(wrap, sig):
         return None, []
     if wrap == 'plain':
         return F.make(sig), []
+    if wrap == 'async':
+        # handlers of a session are usually coroutine functions: same binding rules
+        ns = {}
+        exec('async ' + F.source(sig), ns)
+        return ns['f'], []
+    if wrap == 'callobj':
+        # an instance whose class defines __call__ (inspect reports the bound __call__)
+        ns = {}
+        exec('class K:\n    ' + F.source(sig, '__call__', first=SELF), ns)
+        return ns['K'](), ([] if (sig and sig[0][0] == 0) else [SELF])
     if wrap == 'fake':
         return _Fake(_fake_signature(sig)), []
     if wrap in ('method', 'mpos1'):
@@ -135,6 +145,8 @@ def _prebind_pos(f, sig, k):
 
 def wrappers_for(sig):
     out = ['plain', 'method', 'ppos1', 'ppos2', 'mpos1', 'mtype', 'pnest']
+    if len(sig) <= 4:
+        out += ['async', 'callobj']
     first_kw = next((nm for k, nm, _ in sig if k in (1, 3)), None)
     if first_kw is not None:
         out.append('pkw:' + first_kw)
@@ -238,17 +250,29 @@ def observe_impl(jsonrpc, handler, args):
     except Exception as e:                       # noqa: BLE001 - any escape is an observation
         return 'X' + type(e).__name__, None
     try:
-        return 'A+', inv()
+        return 'A+', _finish(inv())
     except TypeError:
         return 'A-', None
+
+
+def _finish(value):
+    """a coroutine function returns a coroutine: run it (the bodies never await) to get the value"""
+    if inspect.iscoroutine(value):
+        try:
+            value.send(None)
+        except StopIteration as e:
+            return e.value
+        finally:
+            value.close()
+    return value
 
 
 def really_call(handler, args):
     """-> (binds?, result)"""
     try:
         if isinstance(args, dict):
-            return True, handler(**args)
-        return True, handler(*args)
+            return True, _finish(handler(**args))
+        return True, _finish(handler(*args))
     except TypeError:
         return False, None
 
@@ -741,7 +765,7 @@ def run(ctx):
         run_items(ctx, res, [(w, s, None) for s in sigs for w in ('plain', 'method')],
                   parallel=True)
     res['scopes']['exhaustive'] = {'max_parameters': done, 'signatures': nsig,
-                                   'wrappers': ['plain', 'method', 'mtype', 'ppos1', 'ppos2', 'pnest',
+                                   'wrappers': ['plain', 'async (<= 4)', 'callobj (<= 4)', 'method', 'mtype', 'ppos1', 'ppos2', 'pnest',
                                                 'mpos1', 'pkw:first', 'pkw:last', 'pmix:last',
                                                 'pnestmix:last', 'pnestkw:last'],
                                    'one_size_more_plain_and_method_only': extra}
